@@ -1,5 +1,18 @@
 import UvModel.Timer
-/-! C04 (timer part): property theorems about the model of src/timer.c -/
+import UvModel.Lemmas.TimerLemmas
+/-!
+  C04 (timer part): property theorems about the model of src/timer.c.
+
+  Helper lemmas, the invariant `WF`, the event type `Ev`/`step`/`exec`, and the
+  specification functions `collected` / `fired` / `runCollected` / `runFired`
+  (tied to the model's `ready` / `trace` fields by `collect_exact` and
+  `fired_is_trace` below) live in UvModel/Lemmas/TimerLemmas.lean.
+
+  Every theorem is for every state satisfying `WF` (which `wf_invariant` shows
+  to be every reachable state), every script of callback operations and every
+  fuel; handle ids mentioned by operations must exist (`Ev.ok`, `ScriptOk`) —
+  the C API takes handle pointers, there is no such thing as a dangling id.
+-/
 namespace UvModel.Timer
 open UvModel.Heap
 
@@ -23,5 +36,498 @@ theorem dueIn_correct (s : S) (id : Nat) :
   unfold dueIn
   simp only []
   split <;> omega
+
+/-! The non-vacuity examples use the scenario `exS` / `exSc` of TimerLemmas.lean:
+  three timers (#0 due 10, #1 due 10 repeat 5, #2 due 12), clock at 15; the first callback of the
+  pass (#0's) stops #1 — already collected — and restarts #0 itself with timeout 0. -/
+
+/-! ## 1. the invariant -/
+
+/-- `WF` (heap order; heap entries = active handles with matching due time and start id;
+    ids and start ids pairwise distinct, start ids below the counter; ready queue holds
+    distinct, inactive, non-closing handles; closing handles are inactive) holds after
+    every list of outside operations, clock updates and timer passes with arbitrary
+    callback scripts, and the ready queue is empty between events. -/
+theorem wf_invariant (n : Nat) (evs : List Ev) (hok : ∀ ev ∈ evs, ev.ok n) :
+    WF (exec (init n) evs) ∧ (exec (init n) evs).ready = [] := by
+  have h := exec_wf (init n) evs (init_wf n) rfl (by simpa [init] using hok)
+  exact ⟨h.1, h.2.1⟩
+
+/-- the single-step form: each operation, clock update and pass preserves `WF` -/
+theorem wf_preserved (s : S) (hw : WF s) :
+    (∀ o : Op, o.id < s.ts.size → WF (applyOp s o)) ∧ (∀ t, WF (updateTime s t)) ∧
+    (∀ f, WF (collect s f)) ∧
+    (∀ sc f, ScriptOk s.ts.size sc → WF (fire sc s f)) ∧
+    (∀ sc, ScriptOk s.ts.size sc → WF (runTimers sc s)) :=
+  ⟨fun o ho => applyOp_wf s o hw ho, fun t => updateTime_wf s t hw, fun f => collect_wf s f hw,
+   fun sc f h => fire_wf sc s f hw h, fun sc h => runTimers_wf sc s hw h⟩
+
+example : WF exS ∧ exS.ready = [] :=
+  wf_invariant 3 exEvs (fun ev h => exEvs_ok ev (List.mem_append_left _ h))
+example : WF (exec (init 3) (exEvs ++ [.run exSc])) := (wf_invariant 3 _ exEvs_ok).1
+example : exS.heap = #[⟨10, 0, 0⟩, ⟨10, 1, 1⟩, ⟨12, 2, 2⟩] ∧ exS.time = 15 := by decide +kernel
+
+/-! ## trace = fired ids -/
+
+/-- the callbacks recorded by `fire` are exactly `fired`, each at the unchanged loop time -/
+theorem fired_is_trace (sc : Script) (s : S) (f : Nat) :
+    (fire sc s f).trace = ((fired sc s f).map (fun id => (id, s.time))).reverse ++ s.trace ∧
+    (fire sc s f).time = s.time ∧ (fire sc s f).ncb = s.ncb + (fired sc s f).length :=
+  ⟨fire_trace sc s f, (fire_fields sc s f).1, (fire_fields sc s f).2.2⟩
+
+/-- … and those of a whole pass are `runFired` -/
+theorem runFired_is_trace (sc : Script) (s : S) :
+    (runTimers sc s).trace = ((runFired sc s).map (fun id => (id, s.time))).reverse ++ s.trace ∧
+    (runTimers sc s).time = s.time ∧ (runTimers sc s).ready = [] :=
+  ⟨runTimers_trace sc s, (runTimers_fields sc s).1, runTimers_ready sc s⟩
+
+example : runFired exSc exS = [0, 2] ∧ (runTimers exSc exS).trace = [(2, 15), (0, 15)] := by
+  decide +kernel
+
+/-! ## 7. / 3. the first loop -/
+
+/-- with fuel `heap.size + 1` (or more) `collect` moves exactly the due entries: nothing due is
+    left, what was taken is (as a multiset) the due part of the heap, what remains is the rest,
+    and the ids were appended to the ready queue in the order taken. -/
+theorem collect_exact (s : S) (f : Nat) (hw : WF s) (hf : s.heap.size + 1 ≤ f) :
+    (∀ e ∈ (collect s f).heap.toList, e.timeout > s.time) ∧
+    (collected s f).Perm (s.heap.toList.filter (fun e => decide (e.timeout ≤ s.time))) ∧
+    (collect s f).heap.toList.Perm (s.heap.toList.filter (fun e => !decide (e.timeout ≤ s.time))) ∧
+    (collect s f).ready = s.ready ++ (collected s f).map (·.id) := by
+  have hnd := collect_none_due s f hw (by omega)
+  have hd := collected_due_le s f
+  have P := collect_perm s f hw
+  refine ⟨hnd, ?_, ?_, collect_ready s f hw⟩
+  · have := (P.filter (fun e => decide (e.timeout ≤ s.time))).symm
+    rw [List.filter_append] at this
+    rw [List.filter_eq_self.2 (by intro e he; simpa using hd e he),
+      List.filter_eq_nil_iff.2 (by intro e he; have := hnd e he; simp; omega),
+      List.append_nil] at this
+    exact this
+  · have := (P.filter (fun e => !decide (e.timeout ≤ s.time))).symm
+    rw [List.filter_append] at this
+    rw [List.filter_eq_nil_iff.2 (by intro e he; have := hd e he; simpa using this),
+      List.filter_eq_self.2 (by intro e he; have := hnd e he; simp; omega),
+      List.nil_append] at this
+    exact this
+
+/-- pass order: the entries come out of the heap strictly increasing in `(due, startId)`
+    (so: by due time, ties by start order), and the callbacks invoked by the second loop are a
+    subsequence of that order (callbacks can only take handles out of the ready queue). -/
+theorem pass_order (sc : Script) (s : S) (hw : WF s) (hr : s.ready = []) :
+    (runCollected s).Pairwise (fun a b => a.timeout < b.timeout ∨
+        (a.timeout = b.timeout ∧ a.startId < b.startId)) ∧
+    (collect s (s.heap.size + 1)).ready = (runCollected s).map (·.id) ∧
+    (runFired sc s).Sublist ((runCollected s).map (·.id)) := by
+  refine ⟨?_, ?_, runFired_sublist sc s hw hr⟩
+  · exact (collected_sorted s _ hw).imp (fun h => (lt_eq_true_iff _ _).1 h)
+  · rw [collect_ready s _ hw, hr, List.nil_append]; rfl
+
+/-- same for any fuel and any starting ready queue -/
+theorem collect_order (s : S) (f : Nat) (hw : WF s) :
+    (collected s f).Pairwise (fun a b => a.timeout < b.timeout ∨
+        (a.timeout = b.timeout ∧ a.startId < b.startId)) :=
+  (collected_sorted s f hw).imp (fun h => (lt_eq_true_iff _ _).1 h)
+
+example : runCollected exS = [⟨10, 0, 0⟩, ⟨10, 1, 1⟩, ⟨12, 2, 2⟩] ∧
+    runFired noSc exS = [0, 1, 2] ∧ (collect exS 4).heap = #[] := by decide +kernel
+/-- a pass that leaves something behind -/
+example : runCollected (updateTime exS 11) = [⟨10, 0, 0⟩, ⟨10, 1, 1⟩] ∧
+    (collect (updateTime exS 11) 4).heap = #[⟨12, 2, 2⟩] := by decide +kernel
+
+/-! ## 2. never early -/
+
+/-- every callback of a pass is for a handle that was active with due time `≤` the loop time at
+    the start of the pass, and is recorded with exactly that loop time -/
+theorem never_early (sc : Script) (s : S) (hw : WF s) (hr : s.ready = []) :
+    ∀ x ∈ (runTimers sc s).trace, x ∈ s.trace ∨
+      (x.2 = s.time ∧ x.1 ∈ runFired sc s ∧ (getT s x.1).active = true ∧ (getT s x.1).timeout ≤ s.time) := by
+  intro x hx
+  rw [runTimers_trace] at hx
+  rcases List.mem_append.1 hx with h | h
+  · right
+    obtain ⟨id, hid, rfl⟩ := List.mem_map.1 (List.mem_reverse.1 h)
+    obtain ⟨e, _, _, hle, ha, hto⟩ := runFired_mem sc s hw hr id hid
+    exact ⟨rfl, hid, ha, by rw [hto]; exact hle⟩
+  · exact Or.inl h
+
+/-- the first loop only takes due entries (any fuel) -/
+theorem collect_only_due (s : S) (f : Nat) (hw : WF s) :
+    ∀ e ∈ collected s f, e ∈ s.heap.toList ∧ e.timeout ≤ s.time ∧ (getT s e.id).timeout = e.timeout :=
+  fun e he => ⟨(collected_active s f hw e he).1, collected_due_le s f e he,
+    (hw.ent e (collected_active s f hw e he).1).2.1⟩
+
+/-- end to end: a timer started at loop time `s.time` with `timeout`, if its callback is invoked by
+    the pass after the next clock update, sees a loop time `≥ min (s.time + timeout) (2^64-1)`. -/
+theorem never_early_since_start (sc : Script) (s : S) (id timeout rp now : Nat) (hw : WF s)
+    (hr : s.ready = []) (hlt : id < s.ts.size) (hc : (getT s id).closing = false)
+    (hto : timeout < U64)
+    (hf : id ∈ runFired sc (updateTime (start s id timeout rp).1 now)) :
+    (updateTime (start s id timeout rp).1 now).time ≥ min (s.time + timeout) (U64 - 1) := by
+  have hw1 := start_wf s id timeout rp hw hlt
+  have hr1 : (start s id timeout rp).1.ready = [] := by
+    have := (start_same s id timeout rp).ready; rw [hr] at this; exact List.sublist_nil.1 this
+  have hw2 := updateTime_wf _ now hw1
+  obtain ⟨e, _, _, hle, _, hte⟩ := runFired_mem sc _ hw2 hr1 id hf
+  have h3 : (getT (updateTime (start s id timeout rp).1 now) id).timeout = clampC s.time timeout :=
+    (start_handle s id timeout rp hlt hc).2.1
+  rw [← clamp_saturates s.time timeout hw.time_lt hto, ← h3, hte]
+  exact hle
+
+/-- across events: the ids of the trace are exactly the ids invoked by the passes, in order -/
+theorem trace_is_fired (s : S) (evs : List Ev) :
+    (exec s evs).trace.map (·.1) = (execFired s evs).reverse ++ s.trace.map (·.1) :=
+  exec_trace_ids s evs
+
+/-- general form: a timer started at loop time `s.time` with `timeout`; then any events (outside
+    operations, clock updates, whole passes with any callbacks) that neither re-arm it nor invoke
+    it; if a pass then invokes it, the loop time is `≥ min (s.time + timeout) (2^64-1)`. -/
+theorem never_early_general (sc : Script) (s : S) (id timeout rp : Nat) (evs : List Ev) (hw : WF s)
+    (hr : s.ready = []) (hlt : id < s.ts.size) (hc : (getT s id).closing = false)
+    (hto : timeout < U64) (hok : ∀ ev ∈ evs, ev.ok s.ts.size)
+    (hn : ∀ ev ∈ evs, ¬ ev.rearms id) (hnf : id ∉ execFired (start s id timeout rp).1 evs)
+    (hf : id ∈ runFired sc (exec (start s id timeout rp).1 evs)) :
+    (exec (start s id timeout rp).1 evs).time ≥ min (s.time + timeout) (U64 - 1) := by
+  have hw1 := start_wf s id timeout rp hw hlt
+  have hs1 := start_same s id timeout rp
+  have hr1 : (start s id timeout rp).1.ready = [] := by
+    have := hs1.ready; rw [hr] at this; exact List.sublist_nil.1 this
+  have h2 := exec_wf _ evs hw1 hr1 (by rw [hs1.size]; exact hok)
+  obtain ⟨e, _, _, hle, _, hte⟩ := runFired_mem sc _ h2.1 h2.2.1 id hf
+  have h3 := exec_timeout_stable _ id evs hn hnf
+  rw [(start_handle s id timeout rp hlt hc).2.1] at h3
+  rw [← clamp_saturates s.time timeout hw.time_lt hto, ← h3, hte]
+  exact hle
+
+example : execFired (init 3) (exEvs ++ [.run exSc, .run noSc]) = [0, 2, 0] ∧
+    (exec (init 3) (exEvs ++ [.run exSc, .run noSc])).trace = [(0, 15), (2, 15), (0, 15)] := by
+  decide +kernel
+example : ∀ x ∈ (runTimers exSc exS).trace, x.2 = 15 ∧ (getT exS x.1).timeout ≤ 15 := by decide +kernel
+/-- not yet due: nothing fires -/
+example : runFired exSc (updateTime exS 9) = [] := by decide +kernel
+
+/-! ## 4. late joiners wait -/
+
+/-- no timer operation ever adds to the ready queue -/
+theorem ready_never_grows (s : S) (o : Op) (ops : List Op) :
+    (applyOp s o).ready.Sublist s.ready ∧ (ops.foldl applyOp s).ready.Sublist s.ready :=
+  ⟨(applyOp_same s o).ready, (ops_same ops s).ready⟩
+
+/-- the second loop only invokes handles that sit in the ready queue when it starts, in queue
+    order, each at most once; in particular never an *active* handle -/
+theorem fire_only_ready (sc : Script) (s : S) (f : Nat) (hw : WF s) :
+    (fired sc s f).Sublist s.ready ∧ (fired sc s f).Nodup ∧
+    ∀ id, (getT s id).active = true → id ∉ fired sc s f := by
+  refine ⟨fired_sublist sc s f, (fired_sublist sc s f).nodup hw.rdyNodup, ?_⟩
+  intro id ha h
+  have := (hw.rdy id ((fired_sublist sc s f).subset h)).1
+  rw [ha] at this; cases this
+
+/-- a timer started (any timeout, including 0) at any point of the second loop — i.e. in any
+    well-formed state `s` reached inside a callback — is not invoked by the rest of the pass -/
+theorem late_joiners_wait (sc : Script) (s : S) (id timeout rp f : Nat) (hw : WF s) :
+    id ∉ (start s id timeout rp).1.ready ∧ id ∉ fired sc (start s id timeout rp).1 f := by
+  have h1 : id ∉ (start s id timeout rp).1.ready := by
+    rw [start_eq]; split
+    · rename_i hc
+      intro h
+      have := (hw.rdy id h).2.1
+      rw [hc] at this; cases this
+    · exact stop_not_ready s id hw
+  exact ⟨h1, fun h => h1 ((fired_sublist sc _ f).subset h)⟩
+
+/-- same for `uv_timer_again` called from a callback -/
+theorem late_joiners_wait_again (sc : Script) (s : S) (id f : Nat) (hw : WF s)
+    (hrep : (getT s id).rep ≠ 0) (hcb : (getT s id).hasCb = true) :
+    id ∉ (again s id).1.ready ∧ id ∉ fired sc (again s id).1 f := by
+  have h1 : id ∉ (again s id).1.ready := by
+    rw [again_eq, if_neg (by simp [hcb]), if_pos hrep]
+    intro h
+    exact stop_not_ready s id hw ((start_same _ _ _ _).ready.subset h)
+  exact ⟨h1, fun h => h1 ((fired_sublist sc _ f).subset h)⟩
+
+/-- pass level: the invoked ids are among the collected ones, each at most once -/
+theorem pass_fires_collected_once (sc : Script) (s : S) (hw : WF s) (hr : s.ready = []) :
+    (runFired sc s).Sublist ((runCollected s).map (·.id)) ∧ (runFired sc s).Nodup := by
+  refine ⟨runFired_sublist sc s hw hr, ?_⟩
+  exact (fired_sublist sc _ _).nodup (collect_wf s _ hw).rdyNodup
+
+/-- #0 is restarted with timeout 0 by its own callback: invoked once in this pass, waits in the
+    heap (due 15 = now) and is invoked by the next pass -/
+example : runFired exSc exS = [0, 2] ∧ (runTimers exSc exS).heap = #[⟨15, 3, 0⟩] ∧
+    runFired noSc (runTimers exSc exS) = [0] := by decide +kernel
+
+/-! ## 5. stop / close prevent the callback -/
+
+/-- after `uv_timer_stop` the handle is inactive, in neither the heap nor the ready queue, and
+    neither the rest of the current pass nor the next pass invokes it -/
+theorem stop_prevents (sc : Script) (s : S) (id : Nat) (hw : WF s) :
+    (getT (stop s id) id).active = false ∧ id ∉ (stop s id).ready ∧
+    (∀ e ∈ (stop s id).heap.toList, e.id ≠ id) ∧
+    (∀ f, id ∉ fired sc (stop s id) f) ∧
+    (s.ready = [] → id ∉ runFired sc (stop s id)) := by
+  refine ⟨stop_inactive_after s id, stop_not_ready s id hw, stop_not_heap s id hw, ?_, ?_⟩
+  · intro f h; exact stop_not_ready s id hw ((fired_sublist sc _ f).subset h)
+  · intro hr h
+    have hr1 : (stop s id).ready = [] := by
+      have := stop_ready_sublist s id; rw [hr] at this; exact List.sublist_nil.1 this
+    obtain ⟨_, _, _, _, ha, _⟩ := runFired_mem sc _ (stop_wf s id hw) hr1 id h
+    rw [stop_inactive_after] at ha; cases ha
+
+/-- an inactive (stopped, never started, fired one-shot) timer is not invoked by any later pass
+    as long as nobody calls `start`/`again` on it -/
+theorem inactive_until_rearmed (s : S) (id : Nat) (evs : List Ev) (hw : WF s) (hr : s.ready = [])
+    (hi : (getT s id).active = false) (hok : ∀ ev ∈ evs, ev.ok s.ts.size)
+    (hn : ∀ ev ∈ evs, ¬ ev.rearms id) :
+    (getT (exec s evs) id).active = false ∧ ∀ x ∈ (exec s evs).trace, x.1 = id → x ∈ s.trace := by
+  induction evs generalizing s with
+  | nil => exact ⟨hi, fun x hx _ => hx⟩
+  | cons ev r ih =>
+    have h1 := step_wf s ev hw hr (hok ev List.mem_cons_self)
+    have hn1 := hn ev List.mem_cons_self
+    have key : (getT (step s ev) id).active = false ∧
+        ∀ x ∈ (step s ev).trace, x.1 = id → x ∈ s.trace := by
+      cases ev with
+      | op o =>
+        refine ⟨applyOp_stays_inactive s o id hi (by simpa [Ev.rearms] using hn1), ?_⟩
+        intro x hx _
+        have : (applyOp s o).trace = s.trace := (applyOp_same s o).trace
+        rw [← this]; exact hx
+      | time t => exact ⟨hi, fun x hx _ => hx⟩
+      | run sc =>
+        have hsc := Ev.not_rearms_run hn1
+        refine ⟨runTimers_stays_inactive sc s id hw hr hi hsc, ?_⟩
+        intro x hx hxid
+        show x ∈ s.trace
+        have hx' : x ∈ (runTimers sc s).trace := hx
+        rw [runTimers_trace] at hx'
+        rcases List.mem_append.1 hx' with h | h
+        · obtain ⟨j, hj, rfl⟩ := List.mem_map.1 (List.mem_reverse.1 h)
+          obtain ⟨_, _, _, _, ha, _⟩ := runFired_mem sc s hw hr j hj
+          simp only at hxid
+          rw [hxid, hi] at ha; cases ha
+        · exact h
+    have := ih (step s ev) h1.1 h1.2.1 key.1
+      (fun e he => h1.2.2 ▸ hok e (List.mem_cons_of_mem _ he))
+      (fun e he => hn e (List.mem_cons_of_mem _ he))
+    exact ⟨this.1, fun x hx hxid => key.2 x (this.2 x hx hxid) hxid⟩
+
+/-- `uv_close` on a timer: stopped as above, marked closing; `uv_timer_start` then fails with
+    UV_EINVAL and leaves the state alone -/
+theorem close_prevents (sc : Script) (s : S) (id : Nat) (hw : WF s) (hlt : id < s.ts.size) :
+    (getT (close s id) id).active = false ∧ (getT (close s id) id).closing = true ∧
+    id ∉ (close s id).ready ∧ (∀ e ∈ (close s id).heap.toList, e.id ≠ id) ∧
+    (∀ f, id ∉ fired sc (close s id) f) ∧
+    (∀ to rp, start (close s id) id to rp = (close s id, -22)) := by
+  have hg : getT (close s id) id = { getT (stop s id) id with closing := true } := by
+    rw [close_getT, if_pos ⟨rfl, hlt⟩]
+  have hrdy : (close s id).ready = (stop s id).ready := rfl
+  have hheap : (close s id).heap = (stop s id).heap := rfl
+  have hnr : id ∉ (close s id).ready := hrdy ▸ stop_not_ready s id hw
+  refine ⟨?_, ?_, hnr, ?_, ?_, ?_⟩
+  · rw [hg]; exact stop_inactive_after s id
+  · rw [hg]
+  · rw [hheap]; exact stop_not_heap s id hw
+  · intro f h; exact hnr ((fired_sublist sc _ f).subset h)
+  · intro to rp; rw [start_eq, hg]; rfl
+
+/-- a closing handle is never invoked again, whatever anybody does afterwards (no hypothesis on
+    the later events: `start` is refused, `again` cannot re-arm it) -/
+theorem closed_never_fires (s : S) (id : Nat) (evs : List Ev) (hw : WF s) (hr : s.ready = [])
+    (hc : (getT s id).closing = true) (hok : ∀ ev ∈ evs, ev.ok s.ts.size) :
+    ∀ x ∈ (exec s evs).trace, x.1 = id → x ∈ s.trace := by
+  induction evs generalizing s with
+  | nil => exact fun x hx _ => hx
+  | cons ev r ih =>
+    have h1 := step_wf s ev hw hr (hok ev List.mem_cons_self)
+    have key : ∀ x ∈ (step s ev).trace, x.1 = id → x ∈ s.trace := by
+      cases ev with
+      | op o =>
+        intro x hx _
+        have : (applyOp s o).trace = s.trace := (applyOp_same s o).trace
+        rw [← this]; exact hx
+      | time t => exact fun x hx _ => hx
+      | run sc =>
+        intro x hx hxid
+        have hx' : x ∈ (runTimers sc s).trace := hx
+        rw [runTimers_trace] at hx'
+        rcases List.mem_append.1 hx' with h | h
+        · obtain ⟨j, hj, rfl⟩ := List.mem_map.1 (List.mem_reverse.1 h)
+          obtain ⟨_, _, _, _, ha, _⟩ := runFired_mem sc s hw hr j hj
+          simp only at hxid
+          rw [hxid, hw.closing id hc] at ha; cases ha
+        · exact h
+    have := ih (step s ev) h1.1 h1.2.1 (step_closing_mono s ev id hc)
+      (fun e he => h1.2.2 ▸ hok e (List.mem_cons_of_mem _ he))
+    exact fun x hx hxid => key x (this x hx hxid) hxid
+
+/-- #1 is collected, then stopped by #0's callback: not invoked (although due) -/
+example : 1 ∈ (runCollected exS).map (·.id) ∧ 1 ∉ runFired exSc exS ∧
+    (getT (runTimers exSc exS) 1).active = false := by decide +kernel
+example : (getT (close exS 2) 2).closing = true ∧ runFired noSc (close exS 2) = [0, 1] ∧
+    (start (close exS 2) 2 0 0).2 = -22 := by decide +kernel
+
+/-! ## 6. repeat -/
+
+/-- one round of the second loop is: pop, `uv_timer_again`, record, run callback number `ncb`
+    from the state `preCb`, continue -/
+theorem fire_round (sc : Script) (s : S) (f id : Nat) (rest : List Nat) (hr : s.ready = id :: rest) :
+    fire sc s (f + 1) = fire sc ((sc s.ncb).foldl applyOp (preCb s id rest)) f ∧
+    (preCb s id rest).trace = (id, s.time) :: s.trace := by
+  refine ⟨?_, (preCb_same_but s id rest).2.2.1⟩
+  rw [fire_cons sc s f id rest hr]
+  unfold fireStep
+  rw [(again_same { s with ready := rest } id).ncb]
+
+/-- a handle popped with `repeat ≠ 0` (the value in force at that moment) is, when its callback
+    starts, active again with due time `clampC now repeat` = `min (now + repeat) (2^64-1)` and a
+    fresh start id, and sits in the heap with exactly that key -/
+theorem repeat_rearm (s : S) (id : Nat) (rest : List Nat) (hw : WF s) (hr : s.ready = id :: rest)
+    (hrep : (getT s id).rep ≠ 0) :
+    (getT (preCb s id rest) id).active = true ∧
+    (getT (preCb s id rest) id).timeout = clampC s.time (getT s id).rep ∧
+    (getT (preCb s id rest) id).rep = (getT s id).rep ∧
+    (getT (preCb s id rest) id).startId = s.counter ∧
+    (⟨clampC s.time (getT s id).rep, s.counter, id⟩ : Ent) ∈ (preCb s id rest).heap.toList ∧
+    ((getT s id).rep < U64 →
+      (getT (preCb s id rest) id).timeout = min (s.time + (getT s id).rep) (U64 - 1)) := by
+  have hrd := hw.rdy id (hr ▸ List.mem_cons_self)
+  have hlt := hasCb_lt s id hrd.2.2
+  have e := again_rearm_eq { s with ready := rest } id hrd.2.2 hrep hrd.2.1
+  have hg : ∀ j, getT (preCb s id rest) j = getT (again { s with ready := rest } id).1 j :=
+    fun j => rfl
+  have hh : (preCb s id rest).heap = (again { s with ready := rest } id).1.heap := rfl
+  have hT : getT { s with ready := rest } id = getT s id := rfl
+  rw [hT] at e
+  have ht : (stop (stop { s with ready := rest } id) id).time = s.time := by simp
+  have hcn : (stop (stop { s with ready := rest } id) id).counter = s.counter := by simp
+  have hsz : id < (stop (stop { s with ready := rest } id) id).ts.size := by simpa using hlt
+  have hm := arm_heap_mem (stop (stop { s with ready := rest } id) id) id (getT s id).rep (getT s id).rep
+  rw [ht, hcn, ← e] at hm
+  have hgt : getT (preCb s id rest) id = _ := (hg id).trans (e ▸ arm_getT _ id _ _ id)
+  rw [if_pos ⟨rfl, hsz⟩, ht, hcn] at hgt
+  refine ⟨by rw [hgt], by rw [hgt], by rw [hgt], by rw [hgt], hh ▸ hm, ?_⟩
+  intro hb
+  rw [hgt]; exact clamp_saturates _ _ hw.time_lt hb
+
+/-- with `repeat = 0` the handle is not re-armed: inactive and absent from the heap when its
+    callback starts -/
+theorem repeat_zero (s : S) (id : Nat) (rest : List Nat) (hw : WF s) (hr : s.ready = id :: rest)
+    (hrep : (getT s id).rep = 0) :
+    (getT (preCb s id rest) id).active = false ∧
+    (∀ e ∈ (preCb s id rest).heap.toList, e.id ≠ id) ∧ (preCb s id rest).heap = s.heap := by
+  have hrd := hw.rdy id (hr ▸ List.mem_cons_self)
+  have e := again_norep_eq { s with ready := rest } id hrep
+  have hg : getT (preCb s id rest) id = getT (again { s with ready := rest } id).1 id := rfl
+  have hh : (preCb s id rest).heap = (again { s with ready := rest } id).1.heap := rfl
+  rw [e] at hg hh
+  refine ⟨hg ▸ hrd.1, ?_, hh⟩
+  intro x hx hxid
+  rw [hh] at hx
+  have := (hw.ent x hx).1
+  rw [hxid, hrd.1] at this; cases this
+
+/-- #1 (repeat 5) fires at 15 and is re-armed for 20; #0 and #2 (repeat 0) are not -/
+example : (runTimers noSc exS).heap = #[⟨20, 3, 1⟩] ∧
+    (getT (runTimers noSc exS) 0).active = false := by decide +kernel
+/-- the repeat value in force at that moment: changed by an earlier callback of the same pass -/
+example : (runTimers (fun k => if k = 0 then [.setRepeat 1 100] else []) exS).heap = #[⟨115, 3, 1⟩] := by
+  decide +kernel
+
+/-! ## 8. fuel -/
+
+/-- the fuel used by `runTimers` is enough: any larger fuel gives the same result -/
+theorem fuel_suffices (sc : Script) (s : S) (f : Nat) (hw : WF s) :
+    (s.heap.size + 1 ≤ f → collect s f = collect s (s.heap.size + 1)) ∧
+    (s.ready.length + 1 ≤ f → fire sc s f = fire sc s (s.ready.length + 1)) ∧
+    (s.ready.length + 1 ≤ f → (fire sc s f).ready = []) :=
+  ⟨fun h => (collect_fuel s f _ hw (by omega) (by omega)).1,
+   fun h => (fire_fuel sc s f _ (by omega) (by omega)).1,
+   fun h => fire_ready_empty sc s f (by omega)⟩
+
+/-- hence a pass is the two loops run to completion -/
+theorem runTimers_any_fuel (sc : Script) (s : S) (f1 f2 : Nat) (hw : WF s)
+    (h1 : s.heap.size + 1 ≤ f1) (h2 : (collect s f1).ready.length + 1 ≤ f2) :
+    runTimers sc s = fire sc (collect s f1) f2 := by
+  rw [runTimers_eq, ← (collect_fuel s f1 _ hw (by omega) (by omega)).1]
+  exact (fire_fuel sc _ _ _ (by omega) (by omega)).1
+
+example : (collect exS 100).heap = (collect exS 4).heap ∧ (collect exS 100).ready = [0, 1, 2] ∧
+    (fire exSc (collect exS 100) 100).trace = (runTimers exSc exS).trace := by decide +kernel
+
+/-! ## 9. poll timeout -/
+
+theorem nextTimeout_none (s : S) : nextTimeout s = -1 ↔ s.heap.size = 0 := by
+  unfold nextTimeout
+  cases hm : min? s.heap with
+  | none => simp [min?_none _ hm]
+  | some e =>
+    have := (min?_some _ _ hm).1
+    simp only []
+    constructor
+    · intro h; split at h
+      · cases h
+      · split at h
+        · simp [INT_MAX] at h
+        · omega
+    · intro h; omega
+
+/-- with timers pending, `uv__next_timeout` is `min (max 0 (minDue - now)) INT_MAX` for the
+    least due time `minDue` over all active handles -/
+theorem nextTimeout_bound (s : S) (hw : WF s) (hne : 0 < s.heap.size) :
+    ∃ id, (getT s id).active = true ∧
+      (∀ j, (getT s j).active = true → (getT s id).timeout ≤ (getT s j).timeout) ∧
+      nextTimeout s = ((min ((getT s id).timeout - s.time) INT_MAX : Nat) : Int) ∧
+      0 ≤ nextTimeout s ∧ nextTimeout s ≤ 2147483647 := by
+  cases hm : min? s.heap with
+  | none => have := min?_none _ hm; omega
+  | some e =>
+    have hent := hw.ent e (min?_mem _ _ hm)
+    have hval : nextTimeout s = ((min ((getT s e.id).timeout - s.time) INT_MAX : Nat) : Int) := by
+      unfold nextTimeout
+      rw [hm, hent.2.1]
+      simp only []
+      split
+      · rw [Nat.sub_eq_zero_of_le (by assumption)]; simp
+      · split
+        · rw [Nat.min_eq_right (by omega)]
+        · rw [Nat.min_eq_left (by omega)]
+    refine ⟨e.id, hent.1, ?_, hval, ?_, ?_⟩
+    · intro j hj
+      obtain ⟨x, hx, rfl⟩ := hw.act j hj
+      have := min?_le _ hw.inv e x hm hx
+      rw [lt_eq_false_iff] at this
+      rw [hent.2.1, (hw.ent x hx).2.1]
+      omega
+    · rw [hval]; omega
+    · rw [hval]; unfold INT_MAX; omega
+
+example : nextTimeout exS = 0 ∧ nextTimeout (updateTime exS 3) = 7 ∧ nextTimeout (init 3) = -1 ∧
+    nextTimeout (start (init 1) 0 (2 ^ 40) 0).1 = 2147483647 := by decide +kernel
+
+/-! ## 10. the loop clock -/
+
+/-- if the clock readings fed to `uv__update_time` are non-decreasing (from the current loop time)
+    and fit 64 bits, the loop time never decreases along the run: no operation, callback or pass
+    moves it -/
+theorem now_monotone (s : S) (a b : List Ev) (h : TimesOk s.time (a ++ b)) :
+    (exec s a).time ≤ (exec s (a ++ b)).time := by
+  have : exec s (a ++ b) = exec (exec s a) b := List.foldl_append
+  rw [this]
+  exact timesOk_exec _ b (timesOk_split s a b h)
+
+/-- only `uv__update_time` moves the clock -/
+theorem now_only_update (s : S) (o : Op) (sc : Script) :
+    (applyOp s o).time = s.time ∧ (runTimers sc s).time = s.time :=
+  ⟨(applyOp_same s o).time, (runTimers_fields sc s).1⟩
+
+example : TimesOk (init 3).time (exEvs ++ [.run exSc, .time 15, .time 40]) := by
+  simp [TimesOk, exEvs, init, U64]
+
+/-! ## saturation / due-in, concrete -/
+
+example : clampC 5 (2 ^ 64 - 1) = 2 ^ 64 - 1 ∧ clampC (2 ^ 64 - 2) 7 = 2 ^ 64 - 1 ∧ clampC 5 7 = 12 := by
+  decide +kernel
+example : dueIn exS 2 = 0 ∧ dueIn (updateTime exS 3) 2 = 9 := by decide +kernel
 
 end UvModel.Timer
